@@ -396,6 +396,17 @@ def corr_get_deleted(ck):
                 rng.shuffle(perm)
                 t = any_transformer(len(perm), dele)
                 gd_case(ck, batch, t, mol, dict(zip(range(1, len(perm) + 1), perm)), f'exhaustive{n}', f'graph{n}:{edges}')
+    # (a') thorough: every graph on 5 atoms x 12 random (matched tuple, to-delete subset) choices
+    if not quick:
+        ch5 = [c for c in matched_choices([1, 2, 3, 4, 5]) if c[1]]
+        for edges in all_graphs(5):
+            edges = edges[:]
+            rng.shuffle(edges)
+            mol = carbon_graph(5, edges)
+            for matched, dele in rng.sample(ch5, 12):
+                perm = list(matched)
+                rng.shuffle(perm)
+                gd_case(ck, batch, any_transformer(len(perm), dele), mol, dict(zip(range(1, len(perm) + 1), perm)), 'exhaustive5-sampled-choices', f'graph5:{edges}')
     # (b) random cyclic / bridged graphs on 5..9 atoms, masked atoms included
     for i in range(500 if quick else 5000):
         n = rng.randint(5, 9)
@@ -581,16 +592,52 @@ def make_template(pat, rep, **kw):
     return Transformer(p, r, **kw)
 
 
+_PATCHER_LINES = {}
+
+
+def patcher_lines():
+    """line numbers (in chython/reactor/base.py) of the three statements of _patcher at which the intermediate state is read"""
+    if not _PATCHER_LINES:
+        import inspect
+        from chython.reactor.base import BaseReactor
+        src, first = inspect.getsourcelines(BaseReactor._patcher)
+        want = {'bonds': 'for n, bs in self._replacement._bonds.items():', 'patched': 'patched_atoms = set(new)', 'keep': 'for n, bs in sbonds.items():'}
+        for i, line in enumerate(src):
+            for k, text in want.items():
+                if line.strip().startswith(text) and k not in _PATCHER_LINES:
+                    _PATCHER_LINES[k] = first + i
+        _PATCHER_LINES['ok'] = len(_PATCHER_LINES) == 3
+    return _PATCHER_LINES
+
+
 def traced_patcher(t, structure, mapping):
-    """the real _patcher; the stereo labels of the product are also read at the moment _patcher calls new.fix_stereo(), i.e.
-    BEFORE fix_stereo can drop any (from the frame of that call; /repo is not patched).  returns (product, labels or None)"""
+    """the real _patcher, observed from outside (sys.settrace; /repo is not patched):
+    - the intermediate states new._atoms / new._bonds / mapping when execution first reaches the loop over the replacement bonds,
+      `patched_atoms = set(new)` and the loop over the bonds of the structure;
+    - the stereo labels of the product at the moment _patcher calls new.fix_stereo(), i.e. BEFORE fix_stereo can drop any.
+    returns (product, labels or None, states or None)"""
     from chython.reactor.base import BaseReactor
     from chython.containers import MoleculeContainer
     pcode = BaseReactor._patcher.__code__
     fcode = MoleculeContainer.fix_stereo.__code__
+    lines = patcher_lines()
+    at = {lines.get('bonds'): 'bonds', lines.get('patched'): 'patched', lines.get('keep'): 'keep'}
     box = {}
 
+    def snap(frame):
+        new = frame.f_locals.get('new')
+        return (list(new._atoms), [(n, [(k, int(bd)) for k, bd in nb.items()]) for n, nb in new._bonds.items()], dict(frame.f_locals.get('mapping')))
+
+    def local(frame, event, arg):
+        if event == 'line':
+            k = at.get(frame.f_lineno)
+            if k is not None and k not in box:
+                box[k] = snap(frame)
+        return local
+
     def tracer(frame, event, arg):
+        if frame.f_code is pcode:
+            return local
         if frame.f_code is fcode and 'pre' not in box and frame.f_back is not None and frame.f_back.f_code is pcode:
             me = frame.f_locals.get('self')
             box['pre'] = ({n: a.stereo for n, a in me._atoms.items()}, {(n, k): bd.stereo for n, nb in me._bonds.items() for k, bd in nb.items()})
@@ -601,7 +648,8 @@ def traced_patcher(t, structure, mapping):
         new = t._patcher(structure, mapping)
     finally:
         sys.settrace(old)
-    return new, box.get('pre')
+    states = (box['bonds'], box['patched'], box['keep']) if all(k in box for k in ('bonds', 'patched', 'keep')) else None
+    return new, box.get('pre'), states
 
 
 def patch_case(ck, batch, t, structure, mapping, tag, describe):
@@ -617,7 +665,7 @@ def patch_case(ck, batch, t, structure, mapping, tag, describe):
     t_term = batch.define('t', tpl_term(t._replacement))
     rebuilt = '[]'
     try:
-        new, pre = traced_patcher(structure=structure, t=t, mapping=mapping)
+        new, pre, states = traced_patcher(structure=structure, t=t, mapping=mapping)
         res = f'Ok ({coqmol.mol_term(new)}, {pairs(mapping)})'
         ok = True
         rebuilt = lst([tup(zraw(n), opt(h, zraw)) for n, h in rebuilt_hydrogens(new).items()])
@@ -627,6 +675,17 @@ def patch_case(ck, batch, t, structure, mapping, tag, describe):
         new = None
     batch.add(f'patch_res_h_eqb {rebuilt} (patcher_with {MODEL_FUNCTION} {m_term} {before} {zl(to_del)} {t_term}) ({res})',
               {'kind': tag, 'input': describe, 'observed': res[:200]}, ctx=(t, structure, dict(mapping0), describe))
+    if new is not None and states is None:
+        ck.count('patcher:intermediate-states-not-observable')
+        batch.unobservable += 1
+    if new is not None and states is not None:
+        def adj_t(rows):
+            return lst([tup(zraw(n), lst([tup(zraw(k), f'(mkBond {zraw(o)} None)') for k, o in nb])) for n, nb in rows])
+        (a1, _, m1), (_, b2, _), (a3, b3, _) = states
+        batch.add(f'states_eqb (patcher_states_with {m_term} {before} {zl(to_del)} {t_term}) {zl(a1)} {pairs(m1)} {adj_t(b2)} {zl(a3)} {adj_t(b3)}',
+                  {'kind': 'intermediate states of _patcher', 'input': describe, 'after_replacement_atoms': a1, 'after_unmatched_atoms': a3},
+                  ctx=(t, structure, dict(mapping0), describe))
+        ck.count('patcher:intermediate-states compared')
     if new is not None and pre is None and not t._fix_rings:
         ck.count('patcher:labels-before-fix_stereo-not-observable')
         batch.unobservable += 1
@@ -753,7 +812,7 @@ def corr_patcher(ck):
     ck.oblige(f'correspondence: structure of BaseReactor._patcher results == Coq patcher_with {MODEL_FUNCTION} '
               '(atom/neighbour dict order, element, isotope, charge, radical, copied hydrogens, bond orders, extended mapping)',
               ok and not failing, 'correspondence', log or str([batch.meta[i] for i in failing[:5]]))
-    ck.oblige('the stereo labels of the product are observable at the call of fix_stereo inside every _patcher call', batch.unobservable == 0,
+    ck.oblige('the intermediate states of _patcher (three statements found by their text) and the stereo labels at its fix_stereo call are observable in every call', batch.unobservable == 0,
               'correspondence', f'{batch.unobservable} calls without observable labels')
     if batch.unobservable and ok and not failing:
         ck.unchecked('correspondence of the stereo labels stored by _patcher', f'{batch.unobservable} calls: fix_stereo was not called from _patcher')
@@ -1829,9 +1888,10 @@ def run(ck):
         r = f(ck)
         steps[name] = round(time.time() - t0, 1)
         return r
-    # the only generated table C16 depends on: the tetrahedron translation table (through Proofs.StereoProofs, C12), used by
-    # C16_translate_th_same / C16_untouched_centre_same_configuration
-    proved = timed('proof steps', lambda c: common.standard_proof_steps(c, translators=['stereo']))
+    # generated files C16 depends on: the tetrahedron / alkene translation tables (through Proofs.StereoProofs, C12) and
+    # Gen.ReactorShape = digests + branch conditions of every reactor function the hand-written models mirror (own translator
+    # tools/gen_reactorshape.py; C16_reactor_shape_unchanged / C16_reactor_conditions_unchanged stop compiling on any edit)
+    proved = timed('proof steps', lambda c: common.standard_proof_steps(c, translators=['stereo', 'reactorshape']))
     tied = timed('corr to_delete', corr_to_delete)
     tied = timed('corr get_deleted', corr_get_deleted) and tied
     tied = timed('corr patcher', corr_patcher) and tied
